@@ -6,14 +6,17 @@
 package c17
 
 import (
+	"bufio"
 	"bytes"
 	"context"
 	"encoding/hex"
 	"encoding/json"
 	"errors"
 	"fmt"
+	"io"
 	"strconv"
 	"strings"
+	"testing/iotest"
 
 	"github.com/tonkeeper/tongo"
 	"github.com/tonkeeper/tongo/boc"
@@ -114,17 +117,82 @@ var textParsers = []textParser{
 
 // ---------------------------------------------------------------- TL
 
-func tlDecode(b []byte) (ton.AccountID, error) {
-	var id ton.AccountID
-	err := id.UnmarshalTL(bytes.NewReader(b))
-	return id, err
+// chunkReader hands out the given chunks one read call at a time (never more than one chunk per
+// call, never an error together with data); a caller's smaller buffer gets the chunk in pieces.
+type chunkReader struct{ chunks [][]byte }
+
+func (c *chunkReader) Read(p []byte) (int, error) {
+	for len(c.chunks) > 0 && len(c.chunks[0]) == 0 {
+		c.chunks = c.chunks[1:]
+	}
+	if len(c.chunks) == 0 {
+		return 0, io.EOF
+	}
+	if len(p) == 0 {
+		return 0, nil
+	}
+	n := copy(p, c.chunks[0])
+	c.chunks[0] = c.chunks[0][n:]
+	return n, nil
 }
 
-func tlDecodeGeneric(b []byte) (ton.AccountID, error) {
-	var id ton.AccountID
-	err := tl.Unmarshal(bytes.NewReader(b), &id)
-	return id, err
+// tlReaders: the deliveries of a TL byte stream the decoders are run over.
+var tlReaderKinds = []string{"bytes", "one", "half", "dataerr", "bufio16"}
+
+func tlReader(kind string, b []byte, chunks [][]byte) io.Reader {
+	switch kind {
+	case "bytes":
+		return bytes.NewReader(b)
+	case "one":
+		return iotest.OneByteReader(bytes.NewReader(b))
+	case "half":
+		return iotest.HalfReader(bytes.NewReader(b))
+	case "dataerr":
+		return iotest.DataErrReader(bytes.NewReader(b))
+	case "bufio16":
+		return bufio.NewReaderSize(bytes.NewReader(b), 16)
+	case "split":
+		cp := make([][]byte, len(chunks))
+		for i := range chunks {
+			cp[i] = append([]byte{}, chunks[i]...)
+		}
+		return &chunkReader{cp}
+	}
+	panic("unknown reader kind " + kind)
 }
+
+// tlDecodeN reads n account ids one after the other from ONE stream, directly (generic=false)
+// or through tl.Unmarshal. After the first error the remaining ids are reported as errors too.
+func tlDecodeN(r io.Reader, n int, generic bool) ([]ton.AccountID, []error) {
+	ids, errs := make([]ton.AccountID, n), make([]error, n)
+	for i := 0; i < n; i++ {
+		if i > 0 && errs[i-1] != nil {
+			errs[i] = errs[i-1]
+			continue
+		}
+		func() {
+			defer func() {
+				if rec := recover(); rec != nil {
+					errs[i] = fmt.Errorf("panic: %v", rec)
+				}
+			}()
+			if generic {
+				errs[i] = tl.Unmarshal(r, &ids[i])
+			} else {
+				errs[i] = ids[i].UnmarshalTL(r)
+			}
+		}()
+	}
+	return ids, errs
+}
+
+func tlDecodeVia(kind string, b []byte, generic bool) (ton.AccountID, error) {
+	ids, errs := tlDecodeN(tlReader(kind, b, nil), 1, generic)
+	return ids[0], errs[0]
+}
+
+func tlDecode(b []byte) (ton.AccountID, error)        { return tlDecodeVia("bytes", b, false) }
+func tlDecodeGeneric(b []byte) (ton.AccountID, error) { return tlDecodeVia("bytes", b, true) }
 
 // ---------------------------------------------------------------- TL-B
 
